@@ -773,6 +773,7 @@ type C09PoolCfg struct {
 	ND, NO, NSpec int      // numbers of good-default, good-own and special entries (groups)
 	MaxKeys       int      // key budget
 	Kinds         []string // kinds of keys created up front (after two honest/mixed ones)
+	NegOf0        bool     // also create -Keys[0]: same y, opposite sign bit (as third key)
 }
 
 // C09GenPool draws a pool.  Groups returns for each special group the indices
@@ -783,6 +784,10 @@ func C09GenPool(t *rapid.T, cfg C09PoolCfg) (C09Pool, [][]int) {
 	g := &c09PoolGen{t: t, p: &p, maxKeys: cfg.MaxKeys}
 	p.Keys = append(p.Keys, C09GenKey(t, "honest", "k0"))
 	p.Keys = append(p.Keys, C09GenKey(t, rapid.SampledFrom([]string{"honest", "mixed", "mixed"}).Draw(t, "k1kind"), "k1"))
+	if cfg.NegOf0 && len(p.Keys) < cfg.MaxKeys {
+		a := ref.SMod(ref.FromLE(p.Keys[0].A))
+		p.Keys = append(p.Keys, C09Key{Kind: "honest", A: Hex(ref.SEncode(ref.SNeg(a)))})
+	}
 	for _, kd := range cfg.Kinds {
 		if len(p.Keys) < cfg.MaxKeys {
 			p.Keys = append(p.Keys, C09GenKey(t, kd, "kx"))
